@@ -543,7 +543,18 @@ func (e *Engine) modCollect(vc *FnVC, f *ssa.Function, m *modSet, visited map[*s
 					}
 					continue
 				}
-				if callee := c.StaticCallee(); callee != nil {
+				if sm, ok := vc.specModSet(c); ok {
+					if sm.all {
+						m.all = true
+						return
+					}
+					for h := range sm.heaps {
+						m.heaps[h] = true
+					}
+					if sm.pureArgs {
+						continue
+					}
+				} else if callee := c.StaticCallee(); callee != nil {
 					e.modCollect(vc, callee, m, visited)
 				} else {
 					ts := e.dynamicTargets(c)
